@@ -40,7 +40,6 @@ ALPHA = 5
 EXPIRY = 86400
 RPC_TIMEOUT = 5.0
 CORPUS = '/verif/harness/corpus/C12'
-PAGING_SIGNATURE = {'site': 'KademliaRPC.find_value paging', 'announcers_on_one_node': 'n//9 + n%9 > 16'}
 
 
 async def _fake_resolve(host, port, proto='udp'):
@@ -577,7 +576,8 @@ class Sim:
         return (ip_of(i), 4444)
 
     async def value_lookup(self, i, blob, max_probes=600):
-        """returns (list of yielded peers, finder, finished?)"""
+        """returns (list of yielded peers, finder, finished?); the lookup is abandoned (finished = False) once it has
+        scheduled more probes than the proved bound allows, or max_probes"""
         node = self.nodes[i]
         found = []
         finder = node.get_iterative_value_finder(blob)
@@ -585,8 +585,9 @@ class Sim:
         async with contextlib.aclosing(finder):
             async for res in finder:
                 found.extend(res)
-                if finder._n_sched > max_probes:
+                if finder._n_sched > min(max_probes, 34 * max(1, len(finder._learned)) + 8):
                     finished = False
+                    finder._cut = True
                     break
         return found, finder, finished
 
@@ -1201,6 +1202,16 @@ def run_hit_case(run, model, case):
                 problems.append(f'node {a} could not announce to {need} nodes in 40 attempts (stored to {len(stored)})')
             close = {nd.protocol.node_id for nd in sim.true_closest(blob, exclude=(a,))[:K]}
             info['closest_overlap'].append([len(close & set(stored)), min(K, n - 1)])
+            # "stored on nodes closest to its hash": of all peers the announcer's own lookup was given (the peers that
+            # replied), the blob must be stored on exactly the K closest to the hash
+            fs = [f for f in sim.traces if f.KIND == 'node' and f.key == blob and f.protocol is sim.nodes[a].protocol]
+            if fs:
+                dist = Distance(blob)
+                best = {p.node_id for p in sorted(fs[-1].yielded_peers, key=lambda p: dist(p.node_id))[:K]}
+                if set(stored) != best:
+                    problems.append(f'node {a} announced: stored to {len(stored)} nodes which are not the {len(best)} '
+                                    f'closest to the hash among the {len(fs[-1].yielded_peers)} peers its lookup returned '
+                                    f'({len(best - set(stored))} closer peers skipped)')
         first_lo = min(w[0] for w in windows.values())
         last_hi = max(w[1] for w in windows.values())
         problems += await lookups('fresh', blob, announcers, 'hit', windows)
@@ -1234,8 +1245,8 @@ def gen_fault_case(rng, idx):
     n = rng.choice([4, 6, 9, 12, 16, 24])
     kinds = [FAULT_KINDS[(idx + j * 5) % len(FAULT_KINDS)] for j in range(rng.choice([1, 2, 3]))]
     return {'part': 'fault', 'n': n, 'seed': rng.randrange(1 << 30), 'delay': [0.001, rng.choice([0.2, 1.0, 3.0, 7.0])],
-            'dup': rng.choice([0.0, 0.3]), 'loss': rng.choice([0.0, 0.05, 0.2, 0.5]),
-            'dead': rng.choice([0, 1, 2, n // 2]), 'hostile': kinds}
+            'dup': rng.choice([0.0, 0.3]), 'loss': rng.choice([0.0, 0.0, 0.05, 0.2, 0.5]),
+            'dead': rng.choice([0, 1, 2, n // 2]), 'hostile': kinds, 'disconnect': idx % 3 == 0}
 
 
 def run_fault_case(run, model, case):
@@ -1288,6 +1299,21 @@ def run_fault_case(run, model, case):
                     found, finder, fin = [], sim.traces[-1], False
                 problems += check_lookup(sim, i, finder, found, fin, t0, sim.loop.time())
                 info['lookups'] += 1
+        if case.get('disconnect') and live:
+            # the searcher's own socket goes away in the middle of a lookup: the finder must close, not hang
+            i = searchers[0]
+            key = bytes(rng.randrange(256) for _ in range(48))
+            t0 = sim.loop.time()
+            task = sim.loop.create_task(sim.node_lookup(i, key) if rng.random() < 0.5 else sim.value_lookup(i, key))
+            await asyncio.sleep(case['delay'][1] * rng.uniform(0.5, 1.5))
+            sim.nodes[i].protocol.transport.closed = True
+            try:
+                res = await asyncio.wait_for(task, 6000)
+                fin = res[2] if len(res) == 3 else True
+            except asyncio.TimeoutError:
+                res, fin = ([], sim.traces[-1]), False
+            problems += check_lookup(sim, i, res[1], [], fin, t0, sim.loop.time())
+            info['lookups'] += 1
         info['hostile_answered'] = sum(h.answered for h in sim.hostiles)
         return problems
     try:
@@ -1304,13 +1330,16 @@ def run_fault_case(run, model, case):
 def compare_traces(run, model, traces, label, rng, cap):
     """replay recorded finder traces through the model; value finders and traces that saw a failure first"""
     def weight(f):
-        return (0 if f.KIND == 'value' else 1, -len(f._events))
+        rare = any(r.get('exc') == 'TransportNotConnected' or r.get('escaped') for r in f._events)
+        return (0 if rare else 1, 0 if f.KIND == 'value' else 1, -len(f._events))
+    if run.tier == 'thorough':
+        cap *= 3
     chosen = sorted(traces, key=weight)[:cap // 2]
     rest = [f for f in traces if f not in chosen]
     rng.shuffle(rest)
     chosen += rest[:cap - len(chosen)]
     for f in chosen:
-        if not getattr(f, '_meta', None):
+        if not getattr(f, '_meta', None) or getattr(f, '_cut', False) or len(f._events) > 1500:
             continue
         case, impl, mod, res = compare_trace(run, model, f, label)
         small = {'part': 'finder-trace', 'label': label, 'kind': f.KIND, 'searcher': f._meta['searcher'],
@@ -1417,7 +1446,7 @@ def main(run):
         '264,265); C compact addresses on every edge of the reserved networks x port edges x id lengths; E1 honest '
         'loss-free networks of 2..40 real Nodes, sampled join orders/gaps, delay up to 2 s with reordering and '
         'duplication, 1-3 announcers using the BlobAnnouncer retry rule, lookups from every node fresh / +12h / 24h-150s '
-        '/ 24h+; E2 networks with datagram loss 0-50%, delay up to 7 s, dead nodes and a fixed catalogue of %d hostile '
+        '/ 24h+; E2 networks with datagram loss 0-50%%, delay up to 7 s, dead nodes and a fixed catalogue of %d hostile '
         'reply kinds; D every finder that ran in B2/E1/E2 (incl. join/refresh/announce lookups) is replayed event by event '
         'through the extracted model. distinct = distinct case dict (seeded scenarios / op lists / byte strings / finder '
         'traces by searcher+key+length); non-trivial = contains at least one query (ds), n>0 (pages), >2 events (traces).'
@@ -1487,7 +1516,7 @@ def main(run):
     if tier == 'thorough':
         sizes = list(range(2, 41)) * 2
     else:
-        sizes = [2, 3, 4, 5, 6, 7, 9, 12, 16, 22, 30, 40]
+        sizes = [2, 3, 4, 5, 6, 8, 11, 15, 21, 28, 40]
     for idx, n in enumerate(sizes):
         case = gen_hit_case(rng, n, idx)
         if tier == 'thorough' and idx % 13 == 0 and n <= 12:
